@@ -46,7 +46,13 @@ def run(ctx):
                                       n_nearest=rng.choice([0, 1, 2, 3, 4, 7]) if not (rc and tb) else 0))
                 if len({h.count(x) for x in h}) >= 1 and len(set(h)) > 1:
                     ctx.nontrivial(repr((seed, rc, tb, h)))
+            if not tb:          # one-hot, low-complexity motif database (p-values of exactly 1), every n_nearest
+                for nn in (1, 3, 6, 8):
+                    calls.append(dict(kind="hist", seed=seed, threads=rng.choice([1, 2, nthreads]), qidx=[0, 1, 2, 3, 4, 5], rc=rc, tbins=0,
+                                      onehot=True, n_nearest=nn))
             calls.append(dict(kind="annotate", seed=seed, threads=nthreads))
+            if si == 0 and not tb:
+                calls.append(dict(kind="many", seed=seed, threads=nthreads, rc=rc, n=7000))      # > 32767 query columns in one call
             if not ctx.quick:
                 for h in ([1, 0], [0, 1, 0], [3, 2, 1, 0]):
                     calls.append(dict(kind="poison", seed=seed, qidx=h, rc=rc))
